@@ -202,7 +202,7 @@ pub proof fn lemma_seg_no_dollar(s: Seq<char>)
 
 //@ item expand file=src/sys/fs/path.rs fn=expand props=C17,C05,C12,C01
 //@ sig pub fn expand<T: AsRef<Path>>(path: T) -> RvResult<PathBuf>
-//@ rw R4 1 ⟦pathstr.matches('~').count()⟧ => ⟦count_char(&pathstr, '~')⟧
+//@ rw R4 * ⟦pathstr.matches('~').count()⟧ => ⟦count_char(&pathstr, '~')⟧
 //@ rw R1 * re⟦\bhas_prefix\(path, ("[^"]*")\)⟧ => ⟦has_prefix_lit(path, \1)⟧
 //@ rw R1 * re⟦\bhas\(path, ("[^"]*")\)⟧ => ⟦has_lit(path, \1)⟧
 //@ rw R1 * ⟦pathstr != "~"⟧ => ⟦!pathstr.eq_lit("~")⟧
@@ -211,11 +211,11 @@ pub proof fn lemma_seg_no_dollar(s: Seq<char>)
 //@ rw R1 * ⟦mash(home_dir()?, &pathstr.slice_from(2))⟧ => ⟦mash_s(home_dir()?, &pathstr.slice_from(2))⟧
 //@ rw R1 * ⟦mash(home, &pathstr.slice_from(2))⟧ => ⟦mash_s(home, &pathstr.slice_from(2))⟧
 //@ rw R1 * ⟦.join(&pathstr.slice_from(2))⟧ => ⟦.join_s(&pathstr.slice_from(2))⟧
-//@ rw R4 1 ⟦pathstr.matches('$').some()⟧ => ⟦has_char(&pathstr, '$')⟧
+//@ rw R4 * ⟦pathstr.matches('$').some()⟧ => ⟦has_char(&pathstr, '$')⟧
 //@ rw R3 1 for
-//@ rw R4 1 ⟦let mut str = String::new();⟧ => ⟦let mut str = Str::new_empty();⟧
-//@ rw R4 1 ⟦let mut chars = seg.chars().peekable();⟧ => ⟦let mut chars = chars_peekable(&seg);⟧
-//@ rw R4 1 ⟦while chars.peek().is_some() {⟧ => ⟦while chars.has_next() {⟧
+//@ rw R4 * ⟦let mut str = String::new();⟧ => ⟦let mut str = Str::new_empty();⟧
+//@ rw R4 * ⟦let mut chars = seg.chars().peekable();⟧ => ⟦let mut chars = chars_peekable(&seg);⟧
+//@ rw R4 * ⟦while chars.peek().is_some() {⟧ => ⟦while chars.has_next() {⟧
 //@ rw R4 * ⟦str += &chars.by_ref().take_while(|&x| x != '$').collect::<String>();⟧ => ⟦str.append(&chars.take_through('$'));⟧
 //@ rw R4 * ⟦str += &chars.take_while_p(|&x| x != '$').collect::<String>();⟧ => ⟦str.append(&chars.take_until2('$', '$'));⟧
 //@ rw R4 * ⟦if chars.peek().is_some() {⟧ => ⟦if chars.has_next() {⟧
